@@ -46,6 +46,9 @@ What is and is not carried by a theorem.
 -/
 import Aergo.Lemmas.Sync
 import Aergo.Lemmas.SyncProgress
+import Aergo.Lemmas.SyncGood
+import Aergo.Lemmas.SyncWitness
+import Aergo.Lemmas.SyncRecv
 
 namespace Aergo.Props.C17
 open Aergo.Sync
@@ -448,6 +451,139 @@ example : (Recv.feed (fun _ => false) ⟨[11, 12, 13], [], .waiting⟩
     [⟨false, true, [⟨11, 10, 5⟩, ⟨12, 11, 6⟩], true⟩, ⟨false, true, [⟨13, 12, 7⟩], false⟩]).2 =
     [.nothing, .rsp [⟨11, 10, 5⟩, ⟨12, 11, 6⟩, ⟨13, 12, 7⟩]] := by decide
 
+/-! ### The chunk receiver over whole response streams
+
+`Recv.feed big ⟨want, [], .waiting⟩ parts` is `p2p.BlocksChunkReceiver` (created for the request
+`want`) fed the partial responses `parts` in order; a part says whether it arrived after the time
+limit, whether its status was OK, which blocks it carries and whether it announces more
+(`HasNext`). The theorems are for every list of parts. -/
+
+/-- **What the receiver holds is always a prefix — of the request and of what the peer sent.**
+After any parts: the ids of the blocks accepted so far are the first ids of the request, in the
+requested order; the blocks themselves are an initial segment of the concatenation of the blocks the
+peer sent; and feeding more parts only extends what was held. -/
+theorem receiver_holds_prefix (want : List Nat) (big : Blk → Bool) (parts more : List Part) :
+    let r := (Recv.feed big ⟨want, [], .waiting⟩ parts).1
+    r.got.map (·.hash) = want.take r.got.length ∧
+    r.got <+: parts.flatMap (·.blocks) ∧
+    r.got <+: (Recv.feed big ⟨want, [], .waiting⟩ (parts ++ more)).1.got := by
+  intro r
+  refine ⟨?_, ?_, ?_⟩
+  · have hinv : ∀ (ps : List Part) (q : Recv), RInv q → RInv (Recv.feed big q ps).1 := by
+      intro ps
+      induction ps with
+      | nil => intro q h; exact h
+      | cons x xs ih => intro q h; simp only [Recv.feed]; exact ih _ (receive_inv q big x h)
+    have hwant : ∀ (ps : List Part) (q : Recv), (Recv.feed big q ps).1.want = q.want := by
+      intro ps
+      induction ps with
+      | nil => intro q; rfl
+      | cons x xs ih => intro q; simp only [Recv.feed]; rw [ih, receive_want]
+    have := hinv parts ⟨want, [], .waiting⟩ (by simp [RInv])
+    simp only [RInv, hwant] at this
+    exact this
+  · obtain ⟨l, hl, h⟩ := feed_got big parts ⟨want, [], .waiting⟩
+    simp only [List.nil_append] at h
+    show (Recv.feed big ⟨want, [], .waiting⟩ parts).1.got <+: _
+    rw [h]; exact hl
+  · rw [feed_append]
+    obtain ⟨l, _, h⟩ := feed_got big more (Recv.feed big ⟨want, [], .waiting⟩ parts).1
+    simp only
+    rw [h]
+    exact List.prefix_append _ _
+
+/-- **On success the receiver forwards exactly the requested list, and exactly what the peer
+sent.** If the answer to the `k`-th part is a chunk without error, then its ids are the requested
+ids in order, its blocks are precisely the blocks of parts `0 … k` concatenated, every earlier part
+arrived in time with status OK and announced more, part `k` announced the end, and the receiver
+tells the syncer nothing else, before or after. -/
+theorem receiver_forwards_exactly (want : List Nat) (big : Blk → Bool) (parts : List Part) (k : Nat)
+    (blocks : List Blk) (h : (Recv.feed big ⟨want, [], .waiting⟩ parts).2[k]? = some (.rsp blocks)) :
+    blocks.map (·.hash) = want ∧ blocks = (parts.take (k + 1)).flatMap (·.blocks) ∧
+    (∀ i p, i < k → parts[i]? = some p → p.hasNext = true ∧ p.timedOut = false ∧ p.statusOk = true) ∧
+    (∃ p, parts[k]? = some p ∧ p.hasNext = false ∧ p.timedOut = false ∧ p.statusOk = true) ∧
+    (∀ j o, j ≠ k → (Recv.feed big ⟨want, [], .waiting⟩ parts).2[j]? = some o → o = .nothing) := by
+  obtain ⟨h1, _, h3, h4, h5⟩ := feed_rsp_exact big parts ⟨want, [], .waiting⟩ k blocks h
+  refine ⟨?_, by simpa using h1, h3, h4, h5⟩
+  exact (receiver_delivers_requested want big parts).1 blocks (List.mem_of_getElem? h)
+
+/-- **An honest peer is answered with success** (the receiver does not lose a good answer): parts
+that arrive in time with status OK, none empty, all but the last announcing more, carrying together
+exactly the requested ids in order with no oversized block, produce nothing until the last part and
+then the chunk consisting of all their blocks. -/
+theorem receiver_honest_success (want : List Nat) (big : Blk → Bool) (parts : List Part)
+    (h : HonestParts want big parts) :
+    (Recv.feed big ⟨want, [], .waiting⟩ parts).2 =
+      List.replicate (parts.length - 1) .nothing ++ [.rsp (parts.flatMap (·.blocks))] := by
+  obtain ⟨h1, h2, h3, h4, h5⟩ := h
+  have := feed_honest big parts ⟨want, [], .waiting⟩ rfl h1 h2 h3 (by simpa using h4) h5
+  simpa using this
+
+/-- The honest exchange shown above satisfies `HonestParts` (test). -/
+example : HonestParts [11, 12, 13] (fun _ => false)
+    [⟨false, true, [⟨11, 10, 5⟩, ⟨12, 11, 6⟩], true⟩, ⟨false, true, [⟨13, 12, 7⟩], false⟩] := by
+  refine ⟨by simp, ?_, ?_, by simp, by simp⟩
+  · intro p hp
+    simp at hp
+    rcases hp with rfl | rfl <;> simp
+  · intro i p hi
+    match i with
+    | 0 => simp at hi; subst hi; simp
+    | 1 => simp at hi; subst hi; simp
+    | k + 2 => simp at hi
+
+/-- **A part that arrives after the time limit ends the exchange silently**: if the receiver was
+still waiting, nothing is ever sent to the syncer for this request — neither before (it was
+waiting), nor for the late part, nor for anything that follows. (The syncer's own task timeout is
+what then fails the task over: `session_stops_or_completes` needs the ticks for exactly this.) -/
+theorem receiver_timeout_is_silent (want : List Nat) (big : Blk → Bool) (before after : List Part) (late : Part)
+    (hw : (Recv.feed big ⟨want, [], .waiting⟩ before).1.status = .waiting) (hl : late.timedOut = true) :
+    answers (Recv.feed big ⟨want, [], .waiting⟩ (before ++ late :: after)).2 = 0 := by
+  rw [feed_append]
+  simp only [answers_append]
+  have h1 := answers_nothing _ (feed_waiting_silent big before _ hw)
+  have h2 : (Recv.feed big (Recv.feed big ⟨want, [], .waiting⟩ before).1 (late :: after)).2 =
+      .nothing :: (Recv.feed big { (Recv.feed big ⟨want, [], .waiting⟩ before).1 with status := .finished } after).2 := by
+    simp only [Recv.feed]
+    simp [Recv.receive, hw, hl]
+  rw [h1, h2]
+  simp only [answers]
+  have h3 := answers_nothing _ (feed_not_waiting big after
+    { (Recv.feed big ⟨want, [], .waiting⟩ before).1 with status := .finished } (by simp)).2
+  simp only [Nat.zero_add]
+  exact h3
+
+/-- **More blocks than requested is an error, never a success and never ignored**: if the receiver
+is waiting and an in-time OK part carries more blocks than remain to be received, the syncer is
+sent an error (too many / unexpected / too big, whichever the add loop meets first). -/
+theorem receiver_surplus_is_error (want : List Nat) (big : Blk → Bool) (before : List Part) (p : Part)
+    (hw : (Recv.feed big ⟨want, [], .waiting⟩ before).1.status = .waiting)
+    (ht : p.timedOut = false) (hok : p.statusOk = true)
+    (hmore : want.length < (Recv.feed big ⟨want, [], .waiting⟩ before).1.got.length + p.blocks.length) :
+    ∃ e, ((Recv.feed big ⟨want, [], .waiting⟩ before).1.receive big p).2 = .rspErr e := by
+  have hpre := (receiver_holds_prefix want big before []).1
+  have hwant : ∀ (ps : List Part) (q : Recv), (Recv.feed big q ps).1.want = q.want := by
+    intro ps
+    induction ps with
+    | nil => intro q; rfl
+    | cons x xs ih => intro q; simp only [Recv.feed]; rw [ih, receive_want]
+  generalize hr : (Recv.feed big ⟨want, [], .waiting⟩ before).1 = r at *
+  have hrw : r.want = want := by rw [← hr, hwant]
+  have hle : r.got.length ≤ want.length := by
+    have := congrArg List.length hpre
+    simp at this
+    omega
+  have hne : p.blocks.isEmpty = false := by
+    cases hb : p.blocks with
+    | nil => rw [hb] at hmore; simp at hmore; omega
+    | cons a l => rfl
+  have hsur := recvAdd_surplus r.want big p.blocks r.got (by rw [hrw]; exact hmore) (by rw [hrw]; exact hle)
+  cases hra : recvAdd r.want big r.got p.blocks with
+  | mk got e =>
+    cases e with
+    | none => rw [hra] at hsur; exact absurd rfl hsur
+    | some e => exact ⟨e, by simp [Recv.receive, hw, ht, hok, hne, hra]⟩
+
 /-! ## Bad input -/
 
 /-- **A chunk reply that is an error, empty or unlinked never reaches the connect queue**: it
@@ -618,6 +754,330 @@ example :
     (step s .sched).1 = s ∧ (step s (.tick 9)).1 = s ∧ s.curBlock = none ∧ s.hfq ≠ [] := by
   decide
 
+/-! ## Termination
+
+Vocabulary. An *environment* is an infinite stream `evs : Nat → Ev` of events (hash sets, scheduler
+passes, ticks, chunk replies, AddBlock replies — any content, any order). `stAt s0 evs n` and
+`outsAt s0 evs n` are the state of the session and everything it has sent after the first `n`
+events (`run s0 (pre evs n)`). The measure `phi` (Lemmas/SyncTerm.lean) weighs what is still to do:
+6k+1 for a waiting hash set of k heights, 4k+2 for a pending task, 3k+1 (+ the peer) for a running
+task, 3k+2 for a task in the retry queue, `2·(MaxPeerFailCount − failCnt)` for every peer that is
+not bad, 2 per fetched block not yet handed over, 1 for the block being connected, 1 for the session
+being alive. Every step that changes anything except the ages of running tasks lowers it
+(`step_dich`); only the arrival of a hash set raises it, by exactly `gain`.
+-/
+
+/-- Id `h` is listed for height `n` by some hash set of the stream. -/
+def AnnouncedS (evs : Nat → Ev) (n h : Nat) : Prop :=
+  ∃ i st hs k, evs i = Ev.hashSet st hs ∧ hs[k]? = some h ∧ st + k = n
+
+/-- The standing assumptions on the environment of a session, exactly those of `progress` for every
+prefix, plus: the ancestor is below the target and the hash fetcher never announces beyond the
+target (`hash_sets_contiguous`: `lastNo ≤ target`). Nothing is assumed about chunk replies (except
+that ids bind heights) or AddBlock replies. -/
+structure Session (cfg : Cfg) (anc : Blk) (target npeers : Nat) (evs : Nat → Ev) : Prop where
+  heightBound : ∀ i peer err blocks, evs i = Ev.chunk peer err blocks →
+    ∀ b, b ∈ blocks → ∀ n, AnnouncedS evs n b.hash → b.no = n
+  hashSets : ∀ n, HashSetsFrom (anc.no + 1) (pre evs n)
+  upTo : ∀ n, annEnd (anc.no + 1) (pre evs n) ≤ target + 1
+  below : anc.no < target
+  fetchSize : 0 < cfg.maxFetchSize
+  fetchTasks : 0 < cfg.maxFetchTasks
+  pendingConn : 0 < cfg.maxPendingConn
+  peers : 0 < npeers
+
+private theorem envOK_of_session {cfg : Cfg} {anc : Blk} {target npeers : Nat} {evs : Nat → Ev}
+    (h : Session cfg anc target npeers evs) : EnvOK (AnnouncedS evs) cfg anc target npeers evs := by
+  refine ⟨?_, h.hashSets, h.upTo, h.fetchSize, h.fetchTasks, h.pendingConn, h.peers⟩
+  intro i
+  cases he : evs i with
+  | hashSet st hs => intro k x hk; exact ⟨i, st, hs, k, he, hk, rfl⟩
+  | chunk peer err blocks => exact h.heightBound i peer err blocks he
+  | sched => trivial
+  | tick d => trivial
+  | addRsp a b c d => trivial
+
+private theorem heightBound_pre {cfg : Cfg} {anc : Blk} {target npeers : Nat} {evs : Nat → Ev}
+    (h : Session cfg anc target npeers evs) (n : Nat) : HeightBound (pre evs n) := by
+  intro peer err blocks hmem b hb k hann
+  obtain ⟨i, _, hi⟩ := mem_pre hmem
+  obtain ⟨st, hs, j, hm, hj, hk⟩ := hann
+  obtain ⟨i', _, hi'⟩ := mem_pre hm
+  exact h.heightBound i peer err blocks hi b hb k ⟨i', st, hs, j, hi', hj, hk⟩
+
+/-- The session has completed with exactly the result the property asks for: the success notice
+has been sent, and the blocks handed to the chain service are those of heights
+`ancestor+1 … target`, in this order, each carrying an id announced for its height. -/
+def CompletedExactly (cfg : Cfg) (anc : Blk) (target npeers : Nat) (evs : Nat → Ev) (n : Nat) : Prop :=
+  Out.stop none ∈ outsAt (St.init cfg anc target npeers) evs n ∧
+  (delivered (outsAt (St.init cfg anc target npeers) evs n)).map (·.no) = List.range' (anc.no + 1) (target - anc.no) ∧
+  ∀ b, b ∈ delivered (outsAt (St.init cfg anc target npeers) evs n) → Announced (pre evs n) b.no b.hash
+
+private theorem completed_of_final {cfg : Cfg} {anc : Blk} {target npeers : Nat} {evs : Nat → Ev}
+    (h : Session cfg anc target npeers evs) (n : Nat)
+    (hcb : (stAt (St.init cfg anc target npeers) evs n).curBlock = none)
+    (hprev : (stAt (St.init cfg anc target npeers) evs n).prev.no = target) :
+    CompletedExactly cfg anc target npeers evs n := by
+  have hb := heightBound_pre h n
+  obtain ⟨hf, hp⟩ := init_inv (Announced (pre evs n)) cfg anc target npeers
+  have hlen := run_nextNo (Announced (pre evs n)) hf hp (evsOK_of_heightBound _ hb)
+  have hlen' : (delivered (outsAt (St.init cfg anc target npeers) evs n)).length = target - anc.no := by
+    have h1 : nextNo (run (St.init cfg anc target npeers) (pre evs n)).1 = target + 1 := by
+      show nextNo (stAt (St.init cfg anc target npeers) evs n) = target + 1
+      simp only [nextNo, hcb, hprev]
+    have h0 : nextNo (St.init cfg anc target npeers) = anc.no + 1 := rfl
+    have := h.below
+    show (delivered (run (St.init cfg anc target npeers) (pre evs n)).2).length = target - anc.no
+    omega
+  refine ⟨?_, ?_, ?_⟩
+  · rcases run_stop_none (pre evs n) (St.init cfg anc target npeers) with h1 | h1
+    · have : (stAt (St.init cfg anc target npeers) evs n).prev = anc := h1
+      rw [this] at hprev
+      have := h.below
+      omega
+    · exact h1 hprev
+  · have := delivery_heights cfg anc target npeers (pre evs n) hb
+    simp only [outsAt]
+    simp only [outsAt] at hlen'
+    rw [this, hlen']
+  · intro b hmem
+    obtain ⟨k, hk⟩ := List.getElem?_of_mem hmem
+    exact (delivery_order cfg anc target npeers (pre evs n) hb k b hk).2
+
+/-- **Every step costs measure or changes nothing but ages.** For every state whatever (with the
+bookkeeping invariant `QInv`, which holds in every state of every session: `session_steps_bounded`)
+and every event: the step either lowers `phi` by at least one (counting the weight a hash set
+brings), or it is a tick in which no task timed out (only ages change), the arrival of a hash set
+(only the waiting list grows), or a no-op. -/
+theorem step_costs_or_idles (s : St) (e : Ev) (hq : QInv s) (hh : s.halted = false) :
+    phi (step s e).1 + 1 ≤ phi s + gain e ∨ ((step s e).1 = quietStep s e ∧ delivered (step s e).2 = []) :=
+  (step_dich e hq hh).2
+
+/-- **Explicit bound on the work of a session, whatever the peers do.** In every run of every
+session — any events, no assumption at all — the number of events that change more than the ages of
+running tasks or the tail of the waiting hash sets is at most
+`1 + 6·npeers + Σ (6·|hs| + 1)` over the hash sets that arrived: one unit for stopping, two units
+for each of the `MaxPeerFailCount = 3` failures a peer is allowed (one failed task and its retry),
+and per announced height one unit each for: being cut into a task, being given to a peer, being
+fetched, being handed to the chain service, being acknowledged. -/
+theorem session_steps_bounded (cfg : Cfg) (anc : Blk) (target npeers : Nat) (es : List Ev) :
+    effCount (St.init cfg anc target npeers) es ≤ 1 + 6 * npeers + hsGain es := by
+  have := effCount_le es _ (init_qinv cfg anc target npeers)
+  rw [phi_init] at this
+  omega
+
+private theorem hsGain_le : ∀ (es : List Ev) (E : Nat), HashSetsFrom E es → hsGain es + 7 * E ≤ 7 * annEnd E es := by
+  intro es
+  induction es with
+  | nil => intro E _; simp [hsGain, annEnd]
+  | cons e es ih =>
+    intro E h
+    cases e with
+    | hashSet st hs =>
+      simp only [HashSetsFrom] at h
+      have := ih _ h.2.2
+      have hpos : 0 < hs.length := by
+        cases hs with
+        | nil => exact absurd rfl h.2.1
+        | cons a r => simp
+      simp only [hsGain, gain, annEnd, evLen]
+      omega
+    | sched => simp only [HashSetsFrom] at h; have := ih _ h; simp only [hsGain, gain, annEnd, evLen, Nat.add_zero]; omega
+    | tick d => simp only [HashSetsFrom] at h; have := ih _ h; simp only [hsGain, gain, annEnd, evLen, Nat.add_zero]; omega
+    | chunk a b c => simp only [HashSetsFrom] at h; have := ih _ h; simp only [hsGain, gain, annEnd, evLen, Nat.add_zero]; omega
+    | addRsp a b c d => simp only [HashSetsFrom] at h; have := ih _ h; simp only [hsGain, gain, annEnd, evLen, Nat.add_zero]; omega
+
+/-- The same bound in terms of the session's parameters only: at most
+`1 + 6·npeers + 7·(target − ancestor)` effective events, ever. -/
+theorem session_steps_bounded_by_target (cfg : Cfg) (anc : Blk) (target npeers : Nat) (evs : Nat → Ev)
+    (h : Session cfg anc target npeers evs) (n : Nat) :
+    effCount (St.init cfg anc target npeers) (pre evs n) ≤ 1 + 6 * npeers + 7 * (target - anc.no) := by
+  have h1 := session_steps_bounded cfg anc target npeers (pre evs n)
+  have h2 := hsGain_le _ _ (h.hashSets n)
+  have h3 := h.upTo n
+  omega
+
+/-- **Arbitrary peers: every fair session stops or completes.** Let the environment satisfy the
+standing assumptions and be fair: the chain service eventually answers (with anything) while a
+block is being connected; time advances (positive ticks keep coming — the fetcher's 100 ms
+ticker); the scheduler keeps being run (it runs after every event of the loop); the hash fetcher
+eventually announces up to the target (otherwise its own timer stops the session, outside this
+state machine). Chunk replies are arbitrary: late, duplicated, lost, erroneous, empty, unlinked,
+attributed to any peer. Then after finitely many events the session has either stopped and sent
+the error notice, or completed with exactly the result the property asks for. (How many events
+that can take is bounded by `session_steps_bounded_by_target`, counting the effective ones.) -/
+theorem session_stops_or_completes (cfg : Cfg) (anc : Blk) (target npeers : Nat) (evs : Nat → Ev)
+    (h : Session cfg anc target npeers evs)
+    (hf : Fair (St.init cfg anc target npeers) (anc.no + 1) target evs) :
+    ∃ n, ((stAt (St.init cfg anc target npeers) evs n).halted = true ∧
+            ∃ e, Out.stop (some e) ∈ outsAt (St.init cfg anc target npeers) evs n) ∨
+         CompletedExactly cfg anc target npeers evs n := by
+  obtain ⟨n, hfin⟩ := eventually_final (envOK_of_session h) hf
+  refine ⟨n, ?_⟩
+  rcases hfin with hh | ⟨hcb, hprev⟩
+  · left
+    exact ⟨hh, run_halts _ _ (init_qinv cfg anc target npeers) rfl hh⟩
+  · right
+    exact completed_of_final h n hcb hprev
+
+/-- **Honest continuation: the session completes.** If in addition the chain service answers every
+block it is handed with exactly that block's acknowledgement (it accepts linked blocks), and *one*
+peer `g` is good — no task given to `g` is ever found overdue by the timeout check, and no chunk
+reply attributed to `g` is malformed — then, whatever the other peers do, the session never stops
+with an error (in particular `ErrAllPeerBad` never fires) and after finitely many events it has
+completed with exactly `ancestor+1 … target` delivered. -/
+theorem session_terminates (cfg : Cfg) (anc : Blk) (target npeers : Nat) (evs : Nat → Ev)
+    (h : Session cfg anc target npeers evs)
+    (hf : Fair (St.init cfg anc target npeers) (anc.no + 1) target evs)
+    (g : Nat) (hg : g < npeers)
+    (hgood : ∀ i, EvGood g (stAt (St.init cfg anc target npeers) evs i) (evs i)) :
+    (∀ n, (stAt (St.init cfg anc target npeers) evs n).halted = false) ∧
+    ∃ n, CompletedExactly cfg anc target npeers evs n := by
+  have hnever := good_never_halts (envOK_of_session h) g hg hgood
+  refine ⟨fun n => (hnever n).1, ?_⟩
+  obtain ⟨n, hfin⟩ := eventually_final (envOK_of_session h) hf
+  rcases hfin with hh | ⟨hcb, hprev⟩
+  · rw [(hnever n).1] at hh; cases hh
+  · exact ⟨n, completed_of_final h n hcb hprev⟩
+
+/-- The honest session of the examples above, continued for ever by scheduler passes and ticks. -/
+private def honestEvs : Nat → Ev :=
+  tailStream [.hashSet 5 [11, 12], .sched, .chunk 0 false [⟨11, 10, 5⟩, ⟨12, 11, 6⟩],
+    .addRsp 5 11 false false, .addRsp 6 12 false false]
+
+private theorem honestEvs_ge (k : Nat) : honestEvs (k + 5) = .sched ∨ honestEvs (k + 5) = .tick 1 :=
+  tailStream_ge _ _ (by simp)
+
+private theorem honest_fix (k : Nat) :
+    stAt (St.init ⟨2, 2, 2, 2⟩ ⟨10, 9, 4⟩ 6 1) honestEvs (5 + k) =
+      (run (St.init ⟨2, 2, 2, 2⟩ ⟨10, 9, 4⟩ 6 1) [.hashSet 5 [11, 12], .sched, .chunk 0 false [⟨11, 10, 5⟩, ⟨12, 11, 6⟩],
+        .addRsp 5 11 false false, .addRsp 6 12 false false]).1 :=
+  (tailStream_fix _ _ (by decide) (by decide) k).1
+
+/-- The hypotheses of `session_stops_or_completes` and `session_terminates` are satisfiable
+(test): the delivering session shown above, with one peer (the good one), continued for ever by
+scheduler passes and ticks. -/
+example : Session ⟨2, 2, 2, 2⟩ ⟨10, 9, 4⟩ 6 1 honestEvs ∧
+    Fair (St.init ⟨2, 2, 2, 2⟩ ⟨10, 9, 4⟩ 6 1) 5 6 honestEvs ∧
+    ∀ i, EvGood 0 (stAt (St.init ⟨2, 2, 2, 2⟩ ⟨10, 9, 4⟩ 6 1) honestEvs i) (honestEvs i) := by
+  have hhs : ∀ i st hs, honestEvs i = .hashSet st hs → st = 5 ∧ hs = [11, 12] := by
+    intro i st hs h
+    match i with
+    | 0 => simp [honestEvs, tailStream] at h; exact ⟨h.1.symm, h.2.symm⟩
+    | 1 => simp [honestEvs, tailStream] at h
+    | 2 => simp [honestEvs, tailStream] at h
+    | 3 => simp [honestEvs, tailStream] at h
+    | 4 => simp [honestEvs, tailStream] at h
+    | k + 5 => rcases honestEvs_ge k with h' | h' <;> rw [h'] at h <;> cases h
+  refine ⟨⟨?_, ?_, ?_, by decide, by decide, by decide, by decide, by decide⟩, ⟨?_, ?_, ?_, ?_⟩, ?_⟩
+  · intro i peer err blocks h b hb n hann
+    obtain ⟨i', st, hs, k, he, hk, hn⟩ := hann
+    obtain ⟨rfl, rfl⟩ := hhs i' st hs he
+    have hblocks : blocks = [⟨11, 10, 5⟩, ⟨12, 11, 6⟩] := by
+      match i with
+      | 0 => simp [honestEvs, tailStream] at h
+      | 1 => simp [honestEvs, tailStream] at h
+      | 2 => simp [honestEvs, tailStream] at h; exact h.2.2.symm
+      | 3 => simp [honestEvs, tailStream] at h
+      | 4 => simp [honestEvs, tailStream] at h
+      | k + 5 => rcases honestEvs_ge k with h' | h' <;> rw [h'] at h <;> cases h
+    subst hblocks
+    match k with
+    | 0 =>
+      simp at hk; simp at hb
+      rcases hb with rfl | rfl
+      · omega
+      · simp at hk
+    | 1 =>
+      simp at hk; simp at hb
+      rcases hb with rfl | rfl
+      · simp at hk
+      · omega
+    | k + 2 => simp at hk
+  · exact tailStream_hashSets _ 5 (by simp [HashSetsFrom])
+  · intro n; exact (tailStream_annEnd _ 5).1 n
+  · intro i hcb
+    by_cases hi : i ≤ 4
+    · exact ⟨4, hi, 6, 12, false, false, by simp [honestEvs, tailStream]⟩
+    · exfalso
+      apply hcb
+      rw [show i = 5 + (i - 5) by omega, honest_fix]
+      decide
+  · exact tailStream_tick _
+  · exact tailStream_sched _
+  · exact ⟨5, by decide⟩
+  · intro i
+    match i with
+    | 0 => simp [honestEvs, tailStream, EvGood]
+    | 1 => simp [honestEvs, tailStream, EvGood]
+    | 2 => simp [honestEvs, tailStream, EvGood]; decide
+    | 3 =>
+      have : honestEvs 3 = .addRsp 5 11 false false := by simp [honestEvs, tailStream]
+      rw [this]
+      exact ⟨⟨11, 10, 5⟩, by decide, rfl, rfl, rfl, rfl⟩
+    | 4 =>
+      have : honestEvs 4 = .addRsp 6 12 false false := by simp [honestEvs, tailStream]
+      rw [this]
+      exact ⟨⟨12, 11, 6⟩, by decide, rfl, rfl, rfl, rfl⟩
+    | k + 5 =>
+      rcases honestEvs_ge k with h' | h'
+      · rw [h']; trivial
+      · rw [h', show k + 5 = 5 + k by omega, honest_fix]
+        intro t ht
+        have hr : (run (St.init ⟨2, 2, 2, 2⟩ ⟨10, 9, 4⟩ 6 1) [.hashSet 5 [11, 12], .sched, .chunk 0 false [⟨11, 10, 5⟩, ⟨12, 11, 6⟩],
+            .addRsp 5 11 false false, .addRsp 6 12 false false]).1.running = [] := by decide
+        rw [hr] at ht
+        cases ht
+
+/-- **Exception: a session whose block fetcher starts without a single RUNNING peer never ends**
+(`BlockFetcher.init` takes the peers once; `schedule` never enters its loop and never reads the
+hash-set channel). Model witness: no peer, the hash set for heights 5 and 6 arrives, then scheduler
+passes and ticks alternate for ever. Every standing assumption except `0 < npeers` holds and the
+environment is fair, and yet at no time has the session stopped or sent anything: no measure
+decreases. (Real code: the hash fetcher then blocks on the unbuffered channel with its timer
+unserviced and the service keeps `isRunning`; see notes/C17.md.) -/
+theorem no_peers_never_ends :
+    let evs := tailStream [.hashSet 5 [11, 12]]
+    let s0 := St.init ⟨2, 2, 2, 2⟩ ⟨10, 9, 4⟩ 6 0
+    (∀ n, HashSetsFrom 5 (pre evs n)) ∧ (∀ n, annEnd 5 (pre evs n) ≤ 7) ∧
+    (∀ i peer err blocks, evs i ≠ .chunk peer err blocks) ∧
+    Fair s0 5 6 evs ∧
+    ∀ n, (stAt s0 evs n).halted = false ∧ outsAt s0 evs n = [] ∧ ¬ Final 6 (stAt s0 evs n) := by
+  intro evs s0
+  have hfix := tailStream_fix s0 [.hashSet 5 [11, 12]] (by decide) (by decide)
+  have hall : ∀ n, (stAt s0 evs n).halted = false ∧ outsAt s0 evs n = [] ∧ (stAt s0 evs n).prev.no = 4 := by
+    intro n
+    match n with
+    | 0 => exact ⟨rfl, rfl, rfl⟩
+    | k + 1 =>
+      have := hfix k
+      rw [show [Ev.hashSet 5 [11, 12]].length + k = k + 1 by simp; omega] at this
+      rw [this.1, this.2]
+      decide
+  refine ⟨tailStream_hashSets _ 5 (by simp [HashSetsFrom]), fun n => (tailStream_annEnd _ 5).1 n, ?_, ⟨?_, tailStream_tick _, tailStream_sched _, ⟨1, by decide⟩⟩, ?_⟩
+  · intro i peer err blocks h
+    match i with
+    | 0 => simp [evs, tailStream] at h
+    | k + 1 =>
+      rcases tailStream_ge [.hashSet 5 [11, 12]] (k + 1) (by simp) with h' | h' <;> cases (h'.symm.trans h)
+  · intro i hcb
+    exfalso
+    apply hcb
+    match i with
+    | 0 => rfl
+    | k + 1 =>
+      have := hfix k
+      rw [show [Ev.hashSet 5 [11, 12]].length + k = k + 1 by simp; omega] at this
+      rw [this.1]
+      decide
+  · intro n
+    obtain ⟨h1, h2, h3⟩ := hall n
+    refine ⟨h1, h2, ?_⟩
+    intro hF
+    rcases hF with hF | ⟨_, hF⟩
+    · rw [h1] at hF; cases hF
+    · omega
+
 /-! ## Sessions -/
 
 /-- **A message with another session's sequence is dropped** — for every kind of message whose
@@ -667,6 +1127,142 @@ theorem session_restart (v : Svc) (target best : Nat) (hrun : v.running = true) 
 
 /-- While a session runs a start request is ignored (test of the hypothesis: such states exist). -/
 example : (Svc.init.syncStart 9 3).running = true ∧ ((Svc.init.syncStart 9 3).syncStart 12 3) = Svc.init.syncStart 9 3 := by
+  decide
+
+/-! ### Stop requests in any state
+
+`Sys σ` (Model/Sync.lean) keeps the whole session — `isRunning`, `ctx`, finder, hash fetcher, block
+fetcher and processor with all their queues — as a value of an arbitrary type `σ`, and the session's
+own reaction to accepted messages as an arbitrary function `handle`. The theorems below hold for
+every `σ`, `start`, `handle`: whatever state the session is in and whatever it does. -/
+
+/-- A message of session `q` or of an earlier one, of a kind that carries its session's sequence. -/
+def oldMsg {π : Type} (q : Nat) (m : Msg π) : Bool := m.kind.carriesSeq && decide (m.seq ≤ q)
+
+private theorem sys_inv {σ π : Type} (start : Nat → π → Option σ) (handle : σ → MsgKind → π → Verdict σ)
+    (q : Nat) (v : Sys σ) (m : Msg π) (h : q ≤ v.seq ∧ (v.seq = q → v.sess = none)) :
+    q ≤ (Sys.recv start handle v m).seq ∧ ((Sys.recv start handle v m).seq = q → (Sys.recv start handle v m).sess = none) := by
+  unfold Sys.recv
+  split
+  · exact h
+  · split
+    · split
+      · exact h
+      · split
+        · exact h
+        · exact ⟨by simp only; omega, by simp only; omega⟩
+    · exact ⟨h.1, fun _ => rfl⟩
+    · split
+      · exact h
+      · rename_i s hs
+        have hne : v.seq ≠ q := by intro hq; rw [h.2 hq] at hs; cases hs
+        split
+        · exact ⟨h.1, fun hq => absurd hq hne⟩
+        · exact ⟨h.1, fun _ => rfl⟩
+
+private theorem sys_old_dropped {σ π : Type} (start : Nat → π → Option σ) (handle : σ → MsgKind → π → Verdict σ)
+    (q : Nat) (v : Sys σ) (m : Msg π) (h : q ≤ v.seq ∧ (v.seq = q → v.sess = none)) (hold : oldMsg q m = true) :
+    Sys.recv start handle v m = v := by
+  simp only [oldMsg, Bool.and_eq_true, decide_eq_true_eq] at hold
+  obtain ⟨hk, hle⟩ := hold
+  by_cases hlt : m.seq = v.seq
+  · have hq : v.seq = q := by omega
+    have hnone := h.2 hq
+    unfold Sys.recv
+    split
+    · rfl
+    · rename_i hacc
+      rw [hnone] at hacc
+      -- accepted while idle although the kind carries a sequence: only GetAnchorsRsp, which no handler takes
+      have hka : m.kind = .anchorsRsp := by
+        revert hacc hk
+        cases m.kind <;> simp [accepted, MsgKind.garbageWhenIdle, MsgKind.carriesSeq]
+      rw [hka, hnone]
+  · have : verifySeq v.seq m.kind m.seq = false := by
+      simp [verifySeq, hk]; omega
+    unfold Sys.recv
+    simp [accepted, this]
+
+/-- **A stop request resets the service in every state.** Whatever the session holds (finder
+waiting for a reply, hashes outstanding, tasks running, blocks queued or being connected), a
+`SyncStop` carrying the running session's sequence leaves exactly the initial state of the service,
+up to the sequence number. -/
+theorem stop_resets_any_state {σ π : Type} (start : Nat → π → Option σ) (handle : σ → MsgKind → π → Verdict σ)
+    (v : Sys σ) (s : σ) (hs : v.sess = some s) (b : π) :
+    Sys.recv start handle v ⟨.syncStop, v.seq, b⟩ = { (Sys.init : Sys σ) with seq := v.seq } := by
+  unfold Sys.recv
+  simp [accepted, verifySeq, MsgKind.carriesSeq, MsgKind.garbageWhenIdle, hs, Sys.init]
+
+/-- **A later synchronisation can start, and the stopped session cannot disturb it** — for a stop
+request at any reachable state, as one statement over all interleavings. Let the service have
+processed any list of messages `hist` and be running; stop it (a `SyncStop` of its sequence `q`).
+Then (1) the state is the initial one up to the sequence number; (2) the next start request whose
+target is ahead is taken and gets sequence `q+1`; (3) for *every* list `ms` of later messages — the
+new session's traffic interleaved in any way with any number of messages still in flight from
+session `q` or earlier ones (replies of chain service and peers, finder results, stop and close
+notices: every kind that carries a sequence) — the service ends in the same state as if the old
+messages had never arrived. (`AddBlockRsp` carries no sequence and is not covered:
+`seq_carrying_kinds`.) -/
+theorem session_restart_any_state {σ π : Type} (start : Nat → π → Option σ) (handle : σ → MsgKind → π → Verdict σ)
+    (hist : List (Msg π)) (b : π)
+    (hrun : (Sys.feed start handle Sys.init hist).sess.isSome = true) :
+    let v := Sys.feed start handle Sys.init hist
+    let v' := Sys.recv start handle v ⟨.syncStop, v.seq, b⟩
+    v' = { (Sys.init : Sys σ) with seq := v.seq } ∧
+    (∀ body s' anySeq, start (v.seq + 1) body = some s' →
+        Sys.recv start handle v' ⟨.syncStart, anySeq, body⟩ = ⟨v.seq + 1, some s'⟩) ∧
+    (∀ ms, Sys.feed start handle v' ms = Sys.feed start handle v' (ms.filter fun m => !oldMsg v.seq m)) := by
+  intro v v'
+  obtain ⟨s, hs⟩ := Option.isSome_iff_exists.mp hrun
+  have h1 : v' = { (Sys.init : Sys σ) with seq := v.seq } := stop_resets_any_state start handle v s hs b
+  refine ⟨h1, ?_, ?_⟩
+  · intro body s' anySeq hst
+    rw [h1]
+    unfold Sys.recv
+    simp [accepted, verifySeq, MsgKind.carriesSeq, MsgKind.garbageWhenIdle, Sys.init, hst]
+  · have hinv : v.seq ≤ v'.seq ∧ (v'.seq = v.seq → v'.sess = none) := by
+      rw [h1]; exact ⟨Nat.le_refl _, fun _ => rfl⟩
+    generalize v' = w at hinv
+    intro ms
+    induction ms generalizing w with
+    | nil => rfl
+    | cons m ms ih =>
+      by_cases hold : oldMsg v.seq m = true
+      · simp only [Sys.feed, List.filter, hold, Bool.not_true]
+        rw [sys_old_dropped start handle v.seq w m hinv hold]
+        exact ih w hinv
+      · have hold' : oldMsg v.seq m = false := by simpa using hold
+        simp only [Sys.feed, List.filter, hold', Bool.not_false]
+        exact ih _ (sys_inv start handle v.seq w m hinv)
+
+/-- The hypotheses are satisfiable, and the statement bites (test): a session with target 9 is
+started and stopped; a stale stop, a stale chunk reply and a stale finder failure of session 2 are
+interleaved with the start of session 3 (target 12) and its own failing finder result. -/
+example :
+    Sys.feed sysStart sysHandle Sys.init [⟨.syncStart, 0, .start 9 3⟩] = ⟨2, some 9⟩ ∧
+    Sys.feed sysStart sysHandle ⟨2, none⟩
+      [⟨.syncStop, 2, .none⟩, ⟨.syncStart, 0, .start 12 3⟩, ⟨.blockChunksRsp, 2, .none⟩, ⟨.finderResult, 2, .fail⟩,
+       ⟨.syncStop, 1, .none⟩] = ⟨3, some 12⟩ ∧
+    Sys.feed sysStart sysHandle ⟨2, none⟩
+      [⟨.syncStart, 0, .start 12 3⟩, ⟨.finderResult, 3, .fail⟩] = ⟨3, none⟩ := by
+  decide
+
+/-- The same with the block fetcher/processor state as the session (test): a stop request in the
+middle of a fetch — a task running, nothing connected yet — resets the service, and the late chunk
+reply of the stopped session changes nothing afterwards. -/
+example :
+    let handle : St → MsgKind → Ev → Verdict St := fun s k e =>
+      match k with
+      | .blockChunksRsp => .carryOn (step s e).1
+      | .addBlockRsp => .carryOn (step s e).1
+      | _ => .carryOn s
+    let start : Nat → Ev → Option St := fun _ _ => some (run (St.init ⟨2, 2, 2, 2⟩ ⟨10, 9, 4⟩ 6 1) [.hashSet 5 [11, 12], .sched]).1
+    let v := Sys.feed start handle Sys.init [⟨.syncStart, 0, .sched⟩]
+    (∃ s, v.sess = some s ∧ s.running ≠ []) ∧
+    Sys.feed start handle v [⟨.syncStop, 2, .sched⟩, ⟨.blockChunksRsp, 2, .chunk 0 false [⟨11, 10, 5⟩, ⟨12, 11, 6⟩]⟩] = ⟨2, none⟩ := by
+  intro handle start v
+  refine ⟨⟨_, rfl, by decide⟩, ?_⟩
+  show Sys.feed start handle (Sys.feed start handle Sys.init [⟨.syncStart, 0, .sched⟩]) _ = _
   decide
 
 end Aergo.Props.C17
